@@ -19,8 +19,6 @@ import (
 	"github.com/metrico/qryn/reader/model"
 	common "go.opentelemetry.io/proto/otlp/common/v1"
 	v1 "go.opentelemetry.io/proto/otlp/trace/v1"
-
-	"verif/mc/ev"
 )
 
 type TempoCase struct {
@@ -437,12 +435,13 @@ func tempoCases(thorough bool) []*TempoCase {
 	return out
 }
 
-func runTempoCases(r *ev.Run, g *gstat, cases []*TempoCase) {
-	parallel(cases, func(c *TempoCase) {
+func runTempoCases(r *sink, g *gstat, cases []*TempoCase) {
+	parallel(r, cases, func(c *TempoCase) {
 		code, body := runTempo(c)
 		g.add(body)
+		debugBody(body)
 		k, _ := json.Marshal(c)
-		r.Distinct("tempo|" + string(k))
+		r.Distinct_("tempo|" + string(k))
 		if b := checkTempo(c, code, body); b != nil {
 			r.Outcome(b.Class)
 			violate(r, "tempo", c, b)
